@@ -249,6 +249,9 @@ func runHostile(t fatalTB, connack []byte, stream []byte, hs hostileSetup) (labe
 	cfg := baseConfig()
 	w := sim.New(t, sim.Options{Config: cfg, ClientID: clientID, Prop: "C13"})
 	defer w.Shutdown(5 * time.Second)
+	// (every other BigMessage is left unread: its payload is then discarded
+	// by the next ReadSlices, under PauseTimeout)
+	w.App.ReadBig = func(i int) bool { return (len(stream)+i)%2 == 0 }
 	fail := func(format string, args ...interface{}) {
 		w.Script = []string{fmt.Sprintf("setup %+v", hs), fmt.Sprintf("connack % x", connack), fmt.Sprintf("stream (%d bytes) % x", len(stream), head(stream, 200))}
 		w.Failf(format, args...)
@@ -517,6 +520,12 @@ func runHostile(t fatalTB, connack []byte, stream []byte, hs hostileSetup) (labe
 		}
 	case vIncomplete:
 		// the stream ends inside a packet: PauseTimeout must bound the wait
+		if firstErr == nil && w.App.InReadAll() {
+			// the application reads a BigMessage whose tail never comes:
+			// its own I/O, without a deadline by design (L9)
+			label = "stream-incomplete-inside-ReadAll"
+			return label, true
+		}
 		if firstErr == nil {
 			if !w.App.InCall() || !w.ReaderWaiting() {
 				fail("VERIF-INFRA: unexpected state at the end of an incomplete stream")
